@@ -97,8 +97,13 @@ fn run_bnd(a: &[Sx], as_stack: bool) -> String {
     let mut state: State<Ranges> = State::new();
     state.insert(Populations::<Ranges>::new());
     state.insert(Random::new(seed));
-    for p in &pops {
-        state.populations_mut().push(p.iter().map(|s| Individual::new_unevaluated(s.clone())).collect());
+    // every other individual carries an objective value (individual `i` of population `j` iff `seed + i + j` is
+    // even): a solution is repaired whether or not it has been evaluated (mutate -> evaluate -> repair)
+    for (j, p) in pops.iter().enumerate() {
+        state.populations_mut().push(p.iter().enumerate().map(|(i, s)| {
+            if (seed as usize + i + j) % 2 == 0 { Individual::new(s.clone(), SingleObjective::try_from(1.0).unwrap()) }
+            else { Individual::new_unevaluated(s.clone()) }
+        }).collect());
     }
     let snap = |state: &State<Ranges>, tag: &str| -> String {
         let pops = state.populations();
@@ -321,7 +326,11 @@ fn bnd_input_dom(op: &str, kind: &str, dom: &[(f64, f64)], seed: u64, sols: &[Ve
 fn mixed_domains() -> Vec<Vec<(f64, f64)>> {
     vec![vec![(0.0, 1.0), (10.0, 20.0), (-5.0, -4.0)],
          vec![(-1.0, 1.0), (1e-3, 1e6), (0.0, 10.0), (-5.0, -2.0)],
-         vec![(100.0, 101.0), (-1.0, 1.0)]]
+         vec![(100.0, 101.0), (-1.0, 1.0)],
+         // first and last range equal, inner ones different; repeated ranges
+         vec![(0.0, 6.25), (100.0, 101.0), (0.0, 6.25)],
+         vec![(-1.0, 1.0), (10.0, 20.0), (-5.0, -4.0), (-1.0, 1.0)],
+         vec![(2.0, 3.0), (2.0, 3.0), (7.0, 8.0), (2.0, 3.0), (2.0, 3.0)]]
 }
 
 fn site_of(input: &Sx) -> String {
@@ -510,7 +519,8 @@ fn main() {
         }
     } } }
     // `RandomBitstring::new_uniform`, `RandomSpread` over an integer element type
-    let nat_doms: [&[(u64, u64)]; 4] = [&[(0, 1)], &[(3, 10)], &[(100, 100000)], &[(0, 1), (10, 20), (7, 8), (1000, 1000000)]];
+    let nat_doms: [&[(u64, u64)]; 6] = [&[(0, 1)], &[(3, 10)], &[(100, 100000)], &[(0, 1), (10, 20), (7, 8), (1000, 1000000)],
+        &[(0, 6), (100, 101), (0, 6)], &[(2, 3), (2, 3), (7, 9), (2, 3), (2, 3)]];
     for n in 0..=6u64 { for dim in 0..=6u64 {
         let seed = a.seed * 104729 + n * 31 + dim;
         let h = (n + dim) % 3;
